@@ -410,7 +410,8 @@ class VarzSocketWrapper(object):
     if self._is_open:
       self._is_open = False
       self._varz.num_connections(-1)
-      self._socket.close()
+    # Also close a socket that is still connecting (open() has not returned).
+    self._socket.close()
 
   def readAll(self, sz):
     buff = bytearray(sz)
